@@ -143,6 +143,8 @@ class Ctx:
         self.consts = {}                             # name -> (coq_ty, text)
         self.const_order = []
         self.fninfo = {}                             # name -> Fn (translated)
+        self.fninfo_id = {}                          # decl id -> Fn (translated)
+        self.overloads = {}                          # name -> number of overloads with a body in the specialization
         self.static_decls = {}                       # name -> VarDecl node (static const members)
         self.static_tables = {}                      # local static const arrays: name -> list
         self.accessors = {}                          # reference-returning accessors: name -> (field, index node, params)
@@ -375,6 +377,19 @@ class Fn:
             return c['referencedDecl']['name'], c
         raise TranslationError('callee kind ' + c['kind'])
 
+    def lookup_fn(self, nm, c):
+        """resolve a callee to a translated function BY DECLARATION, not by name: a call to an overload other than
+        the translated one must not silently bind to the translated one"""
+        rid = None
+        if c is not None:
+            rid = c.get('referencedMemberDecl') or (c.get('referencedDecl') or {}).get('id')
+        if rid is not None and rid in self.ctx.fninfo_id:
+            return self.ctx.fninfo_id[rid]
+        fi = self.ctx.fninfo.get(nm)
+        if fi is not None and self.ctx.overloads.get(nm, 1) > 1 and rid is not None and fi.d.get('id') != rid:
+            raise TranslationError('call to an overload of %s other than the translated one (list it with "index"/"as")' % nm)
+        return fi
+
     def call_expr(self, n):
         nm, c = self.callee_name(n)
         args = n['inner'][1:]
@@ -393,7 +408,7 @@ class Fn:
             a, b = [self.e(x) for x in args]; return f'(if Z.ltb {a} {b} then {b} else {a})'
         if nm in self.functors and self.functors[nm] == 'value':
             return nm
-        fi = self.ctx.fninfo.get(nm)
+        fi = self.lookup_fn(nm, c)
         if fi is None:
             raise TranslationError('call to untranslated function ' + nm)
         if fi.nonsimple:
@@ -802,16 +817,16 @@ class Fn:
 
     def is_nonsimple_call(self, n):
         try:
-            nm, _ = self.callee_name(n)
+            nm, c = self.callee_name(n)
         except TranslationError:
             return False
-        fi = self.ctx.fninfo.get(nm)
+        fi = self.lookup_fn(nm, c)
         return fi is not None and fi.nonsimple
 
     def bind_call(self, n, resname, k):
         """call a non-simple (outcome) function, bind result to resname (or None) and written fields"""
-        nm, _ = self.callee_name(n)
-        fi = self.ctx.fninfo[nm]
+        nm, c = self.callee_name(n)
+        fi = self.lookup_fn(nm, c)
         self.nonsimple = True
         args = fi.field_args_for(self) + self.call_args(fi, n['inner'][1:])
         wf = fi.out_fields()
@@ -884,7 +899,7 @@ class Fn:
                 self.note_write(b)
                 return (f'let {b} := (let fill_n_ := {cnt} in let fill_v_ := {val} in fun j_ => '
                         f'if andb (Z.leb 0 j_) (Z.ltb j_ fill_n_) then fill_v_ else {b} j_) in\n{rest()}')
-            fi = self.ctx.fninfo.get(nm)
+            fi = self.lookup_fn(nm, c)
             if fi is None:
                 raise TranslationError('call statement to untranslated ' + str(nm))
             if fi.nonsimple or fi.writes_fields:
@@ -1303,6 +1318,8 @@ def translate_group(cfg, ast_text=None, repo='/repo'):
         except TranslationError as ex:
             raise TranslationError('%s::%s: %s' % (cfg['class'], name, ex))
         ctx.fninfo[name] = f
+        ctx.fninfo_id[ds[idx].get('id')] = f
+        ctx.overloads[name] = len(ds)
         bodies.append(txt)
     out = ['(* GENERATED by tools/cxx2coq.py from %s (class %s) -- do not edit *)' % (os.path.basename(cfg['tu']), cfg['class']),
            PRELUDE_IMPORT + ''.join(l + '\n' for l in cfg.get('imports', []))]   # C16: "imports": extra Require lines
